@@ -263,6 +263,13 @@ impl TryFrom<Pair<'_, Rule>> for Variable {
                     .collect::<Result<VariableMap, Error>>()?;
                 Ok(Variable::Struct(vm.into()))
             }
+            Rule::tuple_from_str => {
+                let elements = pair
+                    .into_inner()
+                    .map(Self::try_from)
+                    .collect::<Result<Arc<[Variable]>, Error>>()?;
+                Ok(Variable::Tuple(elements))
+            }
             Rule::void => Ok(Variable::Void),
             _ => Err(Error::CannotBeParsed(pair.as_str().into())),
         }
